@@ -70,7 +70,9 @@ func snapshot(root string) map[string]snapEntry {
 
 var c19Names = []string{"..", "../x", "../../x", "../../../x", "a/../../x", "/abs", "//x", "./x", "x/", "../victim.txt", "../../canary.txt", "../file.log", "../passwd",
 	"../../../../../../../../tmp/verif_c19_escape", "sub/../../y", "....//x", "..\\x", ".", "", "a/b/c", "../work/../z", "~/x", "\x00", "a\x00../x", "../\x00x",
-	"/", "./", "../", "a/..", "./.", "../newdir/", "..\\..\\victim.txt", "..\\..\\planted\\n.bin", "x/../../../y/", "../x/", "..//..//x"}
+	"/", "./", "../", "a/..", "./.", "../newdir/", "..\\..\\victim.txt", "..\\..\\planted\\n.bin", "x/../../../y/", "../x/", "..//..//x",
+	// drive-letter and UNC forms (recorders running Windows CE announce such paths): whatever converts them must not re-open the tree
+	"D:\\..\\..\\escaped.bin", "E:\\..\\..\\victim.txt", "C:\\a\\..\\..\\..\\z.bin", "d:\\..\\x", "D:/../../y.bin", "D:..\\..\\w", "\\\\host\\share\\..\\..\\u", "x/D:\\..\\..\\v.bin", "1:\\..\\..\\t"}
 
 // names built as  <climbing prefix> + <odd last component> + <odd suffix>: sanitisers that clean, trim, decode or cut in some
 // order are sensitive to components made of dots, blanks, backslashes, percent escapes and control bytes
